@@ -5,6 +5,7 @@ go 1.25.0
 require (
 	github.com/alecthomas/units v0.0.0-20240927000941-0f3dac36c52b
 	github.com/arm-doe/sts v0.0.0
+	gopkg.in/yaml.v2 v2.4.0
 )
 
 require (
@@ -16,7 +17,6 @@ require (
 	golang.org/x/net v0.55.0 // indirect
 	golang.org/x/sys v0.45.0 // indirect
 	golang.org/x/text v0.37.0 // indirect
-	gopkg.in/yaml.v2 v2.4.0 // indirect
 )
 
 replace github.com/arm-doe/sts => /repo
